@@ -24,7 +24,7 @@ RULE = ("seeded gas / water / heating nets with every component type, non-contig
 ASSUMPTIONS = ["temporary files live in a scratch directory outside /repo and /verif that is removed after the case"]
 CONFIG = {"quick": {"shards": 8, "timeout_s": 600, "cases": 120},
           "thorough": {"shards": 16, "timeout_s": 3000, "cases": 3000}}
-REQUIRED_COUNTERS = ["roundtrips_json_string", "roundtrips_json_file", "roundtrips_json_encrypted", "roundtrips_pickle", "tables_compared",
+REQUIRED_COUNTERS = ["nets_with_non_extrapolating_property", "nets_of_sector_None", "roundtrips_json_string", "roundtrips_json_file", "roundtrips_json_encrypted", "roundtrips_pickle", "tables_compared",
                      "fluid_properties_compared", "std_types_compared", "pipeflow_on_loaded_compared", "nets_with_results", "nets_without_results",
                      "nets_with_custom_fluid", "nets_with_modified_library_fluid", "nets_with_user_pump", "nets_with_controller", "multinets_roundtripped"]
 PATHS = ["json_string", "json_file", "json_encrypted", "pickle"]
@@ -202,6 +202,11 @@ def make_net(case, obs):
     netgen.relabel(spec, rng, str(rng.choice(["contiguous", "shuffled", "gaps", "large"])))
     if rng.random() < 0.5:
         spec = netgen.permute_rows(spec, rng)
+    r_ = rng.random()
+    if r_ < 0.35:
+        # nets of another sector than the default: NONE (components added one by one), or the sector of the fluid
+        spec["sector"] = "None" if r_ < 0.2 else ("heat" if case["kind"] == "heat" else ("water" if spec["fluid"] == "water" else "gas"))
+        obs.count("nets_of_sector_" + spec["sector"])
     net = netgen.build(spec)
     net.name = "net %d" % case["i"]
     # None names, custom columns, geodata
@@ -220,6 +225,9 @@ def make_net(case, obs):
         f2.add_property("suth", fl.FluidPropertySutherland(1.7e-5, 273.0, 111.0))
         f2.add_property("const", fl.FluidPropertyConstant(float(rng.uniform(1, 9))))
         f2.add_property("tab", fl.FluidPropertyInterExtra(np.array([260.0, 300.0, 380.0]), rng.uniform(1, 9, 3)))
+        # the documented second method: interpolation without extrapolation
+        f2.add_property("tab_no_extrapolation", fl.FluidPropertyInterExtra(np.array([260.0, 300.0, 380.0]), rng.uniform(1, 9, 3), method="interpolate"))
+        obs.count("nets_with_non_extrapolating_property")
         net.fluid = f2
         obs.count("nets_with_custom_fluid")
     elif rng.random() < 0.6:
